@@ -608,9 +608,9 @@ func (f *Frame) lookup(x *ssa.Lookup) {
 		kv, kd, _ := vc.mapKeys(xt)
 		m := f.val(x.X)
 		k := f.val(x.Index)
-		val := Ite(S("=", m, "0"), e.zero(xt.Elem()), S("select", S("select", f.get(f.cur, kv), m), k))
+		val := S("select", S("select", f.get(f.cur, kv), m), k) // the nil map (reference 0) is an empty map in every state
 		if x.CommaOk {
-			ok := And(Not(S("=", m, "0")), S("select", S("select", f.get(f.cur, kd), m), k))
+			ok := S("select", S("select", f.get(f.cur, kd), m), k)
 			vn := vc.define(f.id+x.Name()+"v", e.sortOf(xt.Elem()), val)
 			on := vc.define(f.id+x.Name()+"ok", "Bool", ok)
 			f.tuples[x] = []string{vn, on}
@@ -621,7 +621,7 @@ func (f *Frame) lookup(x *ssa.Lookup) {
 		}
 		t := f.setVal(x, e.sortOf(xt.Elem()), val)
 		f.assumeTypeInv(t, xt.Elem())
-		dom := And(Not(S("=", m, "0")), S("select", S("select", f.get(f.cur, kd), m), k))
+		dom := S("select", S("select", f.get(f.cur, kd), m), k)
 		vc.assume(Imp(Not(dom), S("=", t, e.zero(xt.Elem()))))
 	case *types.Basic:
 		s := f.val(x.X)
